@@ -268,6 +268,7 @@ func runC17(c *Ctx) {
 	// ---- R-C17-BATCH
 	ringRule(c, "R-C17-BATCH")
 	applierArmsRule(c, "R-C17-KEYS")
+	victimsLoopRule(c, "R-C17-KEYS") // a victim is booked in keyEvict by the policy: it must leave the map on both outcomes of Add
 
 	// ---- R-C17-DROPS
 	c.Group("R-C17-DROPS", "Cache.SetWithTTL#dropSets", func() {
